@@ -92,16 +92,18 @@ def m_len_components(it, a, ty, callee):
 
 
 def m_peerid_try_from(it, a, ty, callee):
-    # multiaddr::PeerId::try_from(multihash): accepted for sha2-256 / short identity hashes. The harness'
-    # peer ids are opaque valid identities, so this succeeds.
-    return res_ok(Adt('multiaddr::PeerId', 0, [a[0]]))
+    # libp2p_identity::PeerId::from_multihash: sha2-256 (any length), or identity with a digest of <= 42 bytes
+    mh = as_mh(it, a[0])
+    if it.branch(it.veq(mh.code, Int(0x12, 64))):
+        return res_ok(Adt('multiaddr::PeerId', 0, [mh]))
+    if it.branch(it.veq(mh.code, Int(0, 64))) and len(mh.digest) <= 42:
+        return res_ok(Adt('multiaddr::PeerId', 0, [mh]))
+    return res_err(mh)
 
 
 def m_peerid_eq(it, a, ty, callee):
     x, y = deref(it, a[0]), deref(it, a[1])
-    x = x.fields[0] if isinstance(x, Adt) and x.ty in ('multiaddr::PeerId', 'peer_id::PeerId') else x
-    y = y.fields[0] if isinstance(y, Adt) and y.ty in ('multiaddr::PeerId', 'peer_id::PeerId') else y
-    r = it.veq(x, y)
+    r = it.veq(as_mh(it, x), as_mh(it, y))
     return b_not(r) if callee.endswith('::ne') else r
 
 
@@ -116,19 +118,84 @@ def m_is_global(it, a, ty, callee):
     raise Inconclusive('is_global on %r' % (ip,))
 
 
+class Mh(Model):
+    """multihash::Multihash<64>: (code: u64, digest bytes with per-path concrete length <= 64)"""
+    __slots__ = ('code', 'digest')
+    rust_type = 'multihash::Multihash<64>'
+    fields = ()
+
+    def __init__(self, code, digest):
+        self.code = code
+        self.digest = tuple(digest)
+
+    def eq_model(self, it, other):
+        if not isinstance(other, Mh) or len(other.digest) != len(self.digest):
+            return False
+        return b_and(it.veq(self.code, other.code), *[it.veq(x, y) for x, y in zip(self.digest, other.digest)])
+
+    def __repr__(self):
+        return 'Mh(%r, %d bytes)' % (self.code, len(self.digest))
+
+
+def peer_mh(v):
+    """the harness' peer ids: identity multihash of 32 bytes whose first byte is v (see verif_rt::Nondet::peer_id)"""
+    b0 = v if isinstance(v, Int) else Int(v, 8)
+    return Mh(Int(0, 64), [b0] + [Int(0, 8)] * 31)
+
+
+def as_mh(it, v):
+    v = deref(it, v)
+    if isinstance(v, Adt) and v.ty in ('multiaddr::PeerId', 'peer_id::PeerId'):
+        v = v.fields[0]
+    if not isinstance(v, Mh):
+        raise Inconclusive('not a multihash: %r' % (v,))
+    return v
+
+
 def m_mh_code(it, a, ty, callee):
-    # harness peer ids are identity multihashes of 32 bytes (see verif_rt::Nondet::peer_id)
-    return Int(0, 64)
+    return as_mh(it, a[0]).code
 
 
 def m_mh_digest(it, a, ty, callee):
-    cell = Cell('digest', Seq([Int(0, 8)] * 32, 'bytes'))
-    return Ptr(cell, (), (0, 32))
+    d = as_mh(it, a[0]).digest
+    cell = Cell('digest', Seq(d, 'bytes'))
+    return Ptr(cell, (), (0, len(d)))
+
+
+def m_mh_size(it, a, ty, callee):
+    return Int(len(as_mh(it, a[0]).digest), 8)
+
+
+def varint_bytes(n):
+    out = []
+    while True:
+        b = n & 0x7f
+        n >>= 7
+        if n:
+            out.append(b | 0x80)
+        else:
+            out.append(b)
+            return out
+
+
+def m_mh_to_bytes(it, a, ty, callee):
+    mh = as_mh(it, a[0])
+    if not mh.code.conc:
+        raise Inconclusive('Multihash::to_bytes with a symbolic code')
+    hdr = varint_bytes(mh.code.v) + varint_bytes(len(mh.digest))
+    return Seq([Int(b, 8) for b in hdr] + list(mh.digest), 'vec')
+
+
+def m_mh_wrap(it, a, ty, callee):
+    code, data = a
+    bs = it.load(data).fields
+    if len(bs) > 64:
+        return res_err(Adt('multihash::Error', 0, ()))
+    return res_ok(Mh(code, bs))
 
 
 def m_mh_from_peerid(it, a, ty, callee):
-    v = a[0]
-    return v.fields[0] if isinstance(v, Adt) else v
+    return as_mh(it, a[0])
 
 
 CODES = {'Sha2_256': 0x12, 'Sha2_512': 0x13, 'Identity': 0x00}
@@ -143,11 +210,21 @@ def m_code_to_u64(it, a, ty, callee):
     raise Inconclusive('multihash code of %r' % (v,))
 
 
+def m_ipv4_new(it, a, ty, callee):
+    if all(x.conc for x in a):
+        return Int((a[0].v << 24) | (a[1].v << 16) | (a[2].v << 8) | a[3].v, 32)
+    return Int(z3.Concat(*[x.z() for x in a]), 32)
+
+
 def install(it):
     load_protocol_enum(it.adts)
+    it.add_model(r'std::net::Ipv4Addr::new', m_ipv4_new)
     it.add_model(r'<u64 as std::convert::From<multihash_codetable::Code>>::from', m_code_to_u64)
     it.add_model(r'multihash::Multihash::<64>::code', m_mh_code)
     it.add_model(r'multihash::Multihash::<64>::digest', m_mh_digest)
+    it.add_model(r'multihash::Multihash::<64>::size', m_mh_size)
+    it.add_model(r'multihash::Multihash::<64>::to_bytes', m_mh_to_bytes)
+    it.add_model(r'multihash::Multihash::<64>::wrap', m_mh_wrap)
     it.add_model(r'<multihash::Multihash<64> as std::convert::From<multiaddr::PeerId>>::from', m_mh_from_peerid)
     it.add_model(r'<multiaddr::PeerId as std::convert::Into<multihash::Multihash<64>>>::into', m_mh_from_peerid)
     it.add_model(r'<ip_network::IpNetwork as std::convert::From<std::net::Ipv[46]Addr>>::from', lambda it, a, ty, c: a[0])
